@@ -140,6 +140,25 @@ def build_journal(path, r, page_size=1024):
     con.close()
 
 
+def build_freelist(path, r, page_size=1024):
+    """tables without a signature (WITHOUT ROWID, sqlite_sequence) listed in the schema *before* an ordinary table whose
+    deleted rows sit on freelist pages (whole leaves released; secure_delete is OFF)"""
+    con = F.connect(path, {"page_size": page_size, "encoding": "UTF-8", "auto_vacuum": 0, "journal_mode": "DELETE"})
+    con.execute("CREATE TABLE w0 (k TEXT, k2 INTEGER, v BLOB, PRIMARY KEY (k, k2)) WITHOUT ROWID")
+    con.execute("CREATE TABLE seq (id INTEGER PRIMARY KEY AUTOINCREMENT, c1 TEXT)")
+    con.execute("CREATE TABLE later (c1 TEXT, c2 BLOB, c3)")
+    con.execute("CREATE TABLE t2 (c1 TEXT, c2 BLOB, c3 INT)")
+    con.execute("BEGIN")
+    for i in range(6):
+        con.execute("INSERT INTO w0 VALUES (?,?,?)", (f"key{i}", i, b"v" * (i + 1)))
+        con.execute("INSERT INTO seq (c1) VALUES (?)", (f"s{i}",))
+    _fill(con, r, "later", 200)
+    _fill(con, r, "t2", 12)
+    con.execute("COMMIT")
+    con.execute("DELETE FROM later WHERE rowid > 4")
+    con.close()
+
+
 def build_odd_name(path, r, name):
     """one ordinary table plus one table with an unusual (but legal) name"""
     con = F.connect(path, {"page_size": 1024, "encoding": "UTF-8", "auto_vacuum": 0, "journal_mode": "DELETE"})
@@ -186,6 +205,8 @@ class Pool:
         build_wal(p, r)
         d, p = self._new("journal", "jn.db")
         build_journal(p, r)
+        d, p = self._new("freelist", "fl.db")
+        build_freelist(p, r)
         d, p = self._new("both", "both.db")
         build_wal(p, r, commits=2)
         shutil.copyfile(os.path.join(self.sets["journal"]["dir"], "jn.db-journal"), p + "-journal")
@@ -595,7 +616,9 @@ def parse_sqlite_export(path):
             q = name.replace('"', '""')
             for rec in con.execute(f'SELECT * FROM "{q}"'):
                 rows.append((tuple(str(x) for x in rec[:k]), len(rec) - k))
-            out[name] = rows
+            # (internal schema objects - sqlite_sequence, sqlite_stat1 - are exported as "iso_<name>": SQLite reserves the
+            # sqlite_ prefix; none of the evidence sets has a user table of such a name)
+            out[name[4:] if name.startswith("iso_sqlite_") else name] = rows
     finally:
         con.close()
     return out
@@ -618,7 +641,7 @@ def parse_sqlite_classes(path):
                 if str(rec[6]) == "Carved":
                     continue
                 d["|".join(str(x) for x in rec[:k])] = list(rec[k:])
-            out[name] = d
+            out[name[4:] if name.startswith("iso_sqlite_") else name] = d
     finally:
         con.close()
     return out
